@@ -110,6 +110,40 @@ flavour a 16 KB source falls back to), not the row-finder one the unadjusted par
 example : estimateUsingCCtxParams ⟨15, 15, 8, 4, 4, 0, 5⟩ RowMode.auto false = estimate (rpOfCCtxParams ⟨15, 15, 8, 4, 4, 0, 5⟩ RowMode.auto false false) ∧
           estimate (rpOfCCtxParams ⟨15, 15, 8, 4, 4, 0, 5⟩ RowMode.auto true false) < estimateUsingCCtxParams ⟨15, 15, 8, 4, 4, 0, 5⟩ RowMode.auto false := by decide
 
+/-- ZSTD_estimate*_usingCParams likewise covers jobs in which long-distance matching came on by itself (ZSTD_makeCCtxParamsFromCParams resolves it) -/
+theorem usingCParams_covers_ldm (c : CPar) (stream : Bool) (p : RP) (hle : LeL p (rpOfCParams c p.useRow stream)) :
+    estimate p ≤ estimateUsingCParams c stream :=
+  Nat.le_trans (estimate_mono_ldm p _ hle) (estimate_le_usingCParams c p.useRow stream)
+
+/-- **usingCCtxParams_covers_ldm**: the same for jobs in which the library switched long-distance matching on by itself (strategy ≥ btopt,
+window log ≥ 27 after adjustment to the source): the estimates resolve the automatic switch on the parameter set's cParams and budget the
+long-distance tables (defect repaired in /repo 3f7e135: they used to size them only when the switch was set explicitly, so a static
+CStream of exactly the estimated size failed on its first call) -/
+theorem usingCCtxParams_covers_ldm (c : CPar) (mode : RowMode) (stream : Bool) (p : RP) (hf : flavourCovered c mode stream p.useRow = true)
+    (hle : LeL p (rpOfCCtxParams c mode p.useRow stream)) : estimate p ≤ estimateUsingCCtxParams c mode stream :=
+  Nat.le_trans (estimate_mono_ldm p _ hle) (estimate_le_usingCCtxParams c mode stream p.useRow hf)
+
+/-- the long-distance table the estimates size has at least 2^ZSTD_HASHLOG_MIN entries -/
+theorem rpOfCCtxParams_ldmHashLog (c : CPar) (mode : RowMode) (u stream : Bool) (h : (rpOfCCtxParams c mode u stream).ldm = true) :
+    3 ≤ (rpOfCCtxParams c mode u stream).ldmHashLog := by
+  unfold rpOfCCtxParams rpOfCParams at h ⊢
+  simp only at h ⊢
+  rw [h]
+  simp only [if_true]
+  have : ZSTD_HASHLOG_MIN = 6 := rfl
+  omega
+
+/-- with `static_never_fails`: a static context of the estimated size never fails a reservation for a job with automatic long-distance matching
+(ZSTD_ldm_adjustParameters never leaves a hash log below ZSTD_HASHLOG_MIN = 6) -/
+theorem usingCCtxParams_ldm_static_never_fails (c : CPar) (mode : RowMode) (stream : Bool) (p : RP) (hf : flavourCovered c mode stream p.useRow = true)
+    (hle : LeL p (rpOfCCtxParams c mode p.useRow stream)) (hl3 : p.ldm = true → 3 ≤ p.ldmHashLog) (lo size : Nat)
+    (hsz : estimateUsingCCtxParams c mode stream ≤ size) : Clean (run (init lo size) (reserveSeq p)) :=
+  static_never_fails p lo size hl3 (Nat.le_trans (usingCCtxParams_covers_ldm c mode stream p hf hle) hsz)
+
+/-- windowLog 27, btopt, nothing said about long-distance matching: the streaming budget contains the 2^20-entry long-distance table -/
+example : (rpOfCCtxParams ⟨27, 6, 6, 1, 4, 0, 7⟩ RowMode.auto false true).ldm = true ∧ (rpOfCCtxParams ⟨27, 6, 6, 1, 4, 0, 7⟩ RowMode.auto false true).ldmHashLog = 20 ∧
+          (rpOfCCtxParams ⟨26, 6, 6, 1, 4, 0, 7⟩ RowMode.auto false true).ldm = false ∧ (rpOfCCtxParams ⟨27, 6, 6, 1, 4, 0, 6⟩ RowMode.auto false true).ldm = false := by decide
+
 /-! ### streaming decoder -/
 
 /-- **dstream_buffers_le**: for every frame whose (clamped) window is within the limit W (W ≥ 1 KiB), whatever its content size
